@@ -27,6 +27,7 @@ def witness_template(ev_w, fn, args):
 def run(chk, tier):
     prog, info = common.program("all")
     common.note_extraction(chk, info, prog)
+    common.vacuity(chk, ['R-TEMPLATE', 'R-PANIC', 'R-TABLE'])
     wit = common.witness()
     chk.explanation = ("Value numbering reduces next_chunk, with_sequence, sequence, chunk_type and the archive parsers to canonical terms. The successor is compared with "
                        "its specification: below 55 the same site and volume with name template(prefix, s+1, E iff s+1 = 55 else I); from 55 the next volume, whose "
